@@ -2,6 +2,7 @@ package props
 
 import (
 	"fmt"
+	"go/token"
 	"go/types"
 
 	"golang.org/x/tools/go/ssa"
@@ -174,6 +175,40 @@ func c09(p *core.Program, r *core.Report) {
 
 	footprintRule(p, r, "segment-coverage", [][2]string{{"", "doubleArea1"}, {"", "length1"}})
 	measureDelegationRule(p, r, "measure-delegation")
+
+	const rd = "area-terms-difference-form"
+	r.Rule(rd, "every floating-point product in the ring-area kernel doubleArea1 has a factor that is the difference of two ordinates of the ring (trapezoid form (y1-y0)*(x1+x0), or any form taken relative to a vertex): the rounding error of each term is then proportional to the size of the ring times its distance from the origin, not to the square of that distance as in the cross-product form x0*y1 - x1*y0, whose terms cancel catastrophically for small rings far from the origin. A necessary condition for the stated bound, not the bound itself", 1)
+	if fn := mustFn(p, r, rd, "", "doubleArea1"); fn != nil {
+		isOrd := func(v ssa.Value) bool {
+			ld, ok := v.(*ssa.UnOp)
+			if !ok || ld.Op != token.MUL {
+				return false
+			}
+			ia, ok := ld.X.(*ssa.IndexAddr)
+			return ok && isFloatSlice(ia.X.Type())
+		}
+		isDiff := func(v ssa.Value) bool {
+			bo, ok := v.(*ssa.BinOp)
+			return ok && bo.Op == token.SUB && isOrd(bo.X) && isOrd(bo.Y)
+		}
+		n := 0
+		for _, b := range fn.Blocks {
+			for _, in := range b.Instrs {
+				bo, ok := in.(*ssa.BinOp)
+				if !ok || bo.Op != token.MUL {
+					continue
+				}
+				if bt, isB := bo.Type().Underlying().(*types.Basic); !isB || bt.Info()&types.IsFloat == 0 {
+					continue
+				}
+				n++
+				r.Check(isDiff(bo.X) || isDiff(bo.Y), rd, fmt.Sprintf("%s/product#%d", short(fn), n), p.Pos(bo.Pos()), true, "one factor is a difference of two ordinates", "neither factor of the product "+bo.String()+" is a difference of two ordinates: the term is as large as the product of the coordinates and the sum cancels catastrophically for a small ring far from the origin")
+			}
+		}
+		if n == 0 {
+			r.Bad(rd, short(fn)+"/products", p.Pos(fn.Pos()), "no floating-point product found in the area kernel")
+		}
+	}
 
 	r.Assume("numerical accuracy of the shoelace/length sums and additivity as an equation are not decided")
 	r.Assume("LASTELEM/CHAIN are decided on SSA values (value equivalence of repeated pure field/index expressions assumes no store to the same field/element type in the function); floors are set below today's counts (9 sites, 17 loops) so that merging duplicated iterators is not reported")
